@@ -379,6 +379,7 @@ func generate(r *vh.Rng, thorough bool, rep *vh.Report) []*kase {
 	for i := 0; i < 400*mult; i++ {
 		lines = append(lines, genP(r))
 	}
+	lines = append(lines, genQ(thorough)...)
 	cases := make([]*kase, len(lines))
 	sampled := map[byte]int{}
 	for i, l := range lines {
